@@ -118,7 +118,7 @@ Ltac hlit :=
          | |- forall _ : N, _ => intro
          | |- Some _ = Some _ -> _ => let E := fresh "E" in intros E; injection E as <-;
               cbn [r_pid r_alive r_st r_bl r_index r_out r_round r_canceled r_owns r_placed r_seen r_updated r_check
-                   r_summary r_teardown r_setup r_creator r_polled] in *
+                   r_summary r_teardown r_setup r_creator r_polled r_collected] in *
          | |- None = Some _ -> _ => let E := fresh "E" in intros E; discriminate E
          end.
 Ltac fwd := repeat match goal with O : ?a = ?b -> _, H : ?a = ?b |- _ => specialize (O H) end.
